@@ -1,2 +1,51 @@
-From BFS Require Import Layers.Call Layers.HiddenList.
-Example placeholder_C06 : is_hidden [47; 104] [[47; 104]] = Some true. Proof. reflexivity. Qed.
+(** C06 — HiddenFS makes hidden paths inaccessible (lexical theorem).
+    [hs] is the stored hidden-path list, cleaned by [NewHiddenFS]. *)
+From BFS Require Import Layers.Call Layers.LayerSpec.
+From BFS Require Import Proofs.HiddenFacts.
+
+(** [isHidden] decides exactly "at or below a hidden path", component-wise. *)
+Theorem C06_is_hidden_spec :
+  forall hs n, Forall cleaned hs -> comparable hs n ->
+  (below hs n -> is_hidden n hs = Some true) /\ (~ below hs n -> is_hidden n hs = Some false).
+Proof. exact is_hidden_spec. Qed.
+Print Assumptions C06_is_hidden_spec.
+
+(** Every single-path method on every spelling of a hidden or below-hidden
+    name is rejected - ErrNotExist for access/removal/metadata, ErrPermission
+    for creating ones - without any call on the underlying filesystem (so the
+    outcome cannot depend on the underlying tree and nothing is modified). *)
+Theorem C06_lexical_single :
+  forall hs m n aux, Forall cleaned hs -> comparable hs n -> two_paths m = false ->
+  below hs n ->
+  hiddenfs_call hs (mkCall m n [] aux) =
+  Rej (match m with
+       | MMkdir | MMkdirAll | MCreate => EHiddenPerm
+       | MOpenFile => if has_o_create aux then EHiddenPerm else EHiddenNotExist
+       | _ => EHiddenNotExist
+       end).
+Proof. exact hiddenfs_lexical_single. Qed.
+Print Assumptions C06_lexical_single.
+
+Theorem C06_lexical_rename :
+  forall hs a b aux, Forall cleaned hs -> comparable hs a -> comparable hs b ->
+  (below hs a -> hiddenfs_call hs (mkCall MRename a b aux) = Rej EHiddenNotExist) /\
+  (~ below hs a -> below hs b -> hiddenfs_call hs (mkCall MRename a b aux) = Rej EHiddenPerm).
+Proof. exact hiddenfs_lexical_rename. Qed.
+Print Assumptions C06_lexical_rename.
+
+(** no symlink at a hidden location, none whose (lexical) target is hidden *)
+Theorem C06_lexical_symlink :
+  forall hs t l aux, Forall cleaned hs ->
+  comparable hs l -> comparable hs (to_abs_symlink t l) ->
+  (below hs l \/ below hs (to_abs_symlink t l)) ->
+  hiddenfs_call hs (mkCall MSymlink t l aux) = Rej EHiddenPerm.
+Proof. exact hiddenfs_lexical_symlink. Qed.
+Print Assumptions C06_lexical_symlink.
+
+Example C06_example :
+  let hs := [[47;118;97;114;47;98]] (* "/var/b" *) in
+  Forall cleaned hs /\ comparable hs [47;118;97;114;47;47;98;47;120] /\
+  below hs [47;118;97;114;47;47;98;47;120] (* "/var//b/x" *) /\
+  hiddenfs_call hs (mkCall MStat [47;118;97;114;47;47;98;47;120] [] []) = Rej EHiddenNotExist /\
+  hiddenfs_call hs (mkCall MStat [47;118;97;114;47;98;50] [] []) = Fwd (mkCall MStat [47;118;97;114;47;98;50] [] []).
+Proof. exact hidden_example. Qed.
